@@ -286,7 +286,7 @@ theorem clean_steps_complete {α : Type} (junk : Folder α) {keep : Nat} (hk : 1
     cleanupRaft keep d = some (applySteps junk d (cleanSteps keep d)) := by
   unfold cleanupRaft cleanSteps
   cases hd : d.data with
-  | none => simp only [applySteps, List.foldl_nil]; congr 1; exact dirs_ext hd.symm (fun _ => rfl)
+  | none => rfl
   | some f =>
     cases f with
     | nosnap => rfl
@@ -331,8 +331,12 @@ theorem crash_restart_repairs {α : Type} (junk : Folder α) {keep : Nat} (hk : 
     cleanupRaft keep (crashAt junk d (cleanSteps keep d) k) = cleanupRaft keep d := by
   cases hd : d.data with
   | none =>
-    have : cleanSteps keep d = [] := by unfold cleanSteps; rw [hd]
-    rw [this]; simp [crashAt, applySteps]
+    have hs : cleanSteps keep d = [.mkData, .rmData] := by unfold cleanSteps; rw [hd]
+    rw [hs]
+    match k with
+    | 0 => rfl
+    | 1 => simp only [crashAt, List.take_succ_cons, List.take_zero, applySteps, List.foldl_cons, List.foldl_nil, applyStep, cleanupRaft, hd]
+    | k + 2 => simp only [crashAt, List.take_succ_cons, List.take_nil, applySteps, List.foldl_cons, List.foldl_nil, applyStep, cleanupRaft, hd]
   | some f =>
     cases f with
     | nosnap =>
